@@ -508,6 +508,9 @@ func txFault(r *rng, add func(violation)) {
 	}
 	if finishes != 1 || ferr != nil {
 		viol("C12", "not-exactly-one-finisher", fmt.Sprintf("after a statement failed with %q: %d finish events at the driver, the first finisher returned %v", fault, finishes, ferr))
+		// (a transaction that can no longer be finished keeps its connection: a failed call has exhausted
+		// part of the pool)
+		viol("C13", "connection-of-the-transaction-cannot-be-released", fmt.Sprintf("after a statement failed with %q: %d finish events at the driver, the first finisher returned %v", fault, finishes, ferr))
 	}
 	before := len(w.f.log())
 	e1, e2 := w.tx.Commit(), w.tx.Rollback()
